@@ -54,8 +54,11 @@ func main() {
 	case "replay":
 		os.Exit(cmdReplay(os.Args[2:]))
 	case "witness":
-		// selftest aid: run the node-level witness search for the given function on the current tree
+		// selftest aid: run the witness search for the given function on the current tree
 		rr := witnessSearchNode(&Obligation{Name: "selftest/" + os.Args[2], Func: os.Args[2]})
+		if rr == nil {
+			rr = witnessSearchTree(os.Args[3], &Obligation{Name: "selftest/" + os.Args[2], Func: os.Args[2]})
+		}
 		fmt.Println(rr["confirmed"], firstLines(fmt.Sprint(rr["output"]), 6))
 	case "weaken":
 		// debugging aid: write the quantifier-free weakening (replay model finding) of a saved query
@@ -228,5 +231,3 @@ func cmdReplay(args []string) int {
 	fmt.Println(string(b))
 	return 0
 }
-
-
